@@ -135,7 +135,10 @@ var injectTypePool = []string{"string", "int32", "*int64", "[]byte", "[]*Inner",
 	"func(a int, b string) error", "func()", "chan int", "[4]byte", "interface{}", "struct{}", "map[string][]map[int]string",
 	"func(\n\t\ta int,\n\t\tb ...string,\n\t) (int, error)", "isMsg_Kind", "*sync.Mutex", "<-chan struct{}", "[]func(context.Context) error",
 	"Box[int]", "map[Key]pkg.Value[string]", "float64", "bool", "uint8", "**Inner", "[][]string", "error", "any",
-	"protoimpl.MessageState", "struct{ X, Y int }", "interface{ M() }"}
+	"protoimpl.MessageState", "struct{ X, Y int }", "interface{ M() }",
+	// anonymous struct types whose inner fields carry tags of their own (never annotated): on one line, and over several
+	"struct{ P int `json:\"p\"` }", "struct {\n\t\tP int    `json:\"p\"`\n\t\tQ string `json:\"q\" xml:\"q\"`\n\t}",
+	"[]struct{ K string `json:\"k\" valid:\"required\"`; V int }"}
 
 var injectEmbedPool = []string{"Inner", "*Inner", "time.Duration", "*sync.Mutex", "pkg.Base", "io.Reader"}
 
@@ -356,6 +359,10 @@ func injectConcretise(segs []injectSeg, id, variant int, salt string) *injectCon
 		b.WriteString("func init() { _ = context.Background }\n")
 	}
 	c.Src = b.String()
+	if r.Intn(10) == 0 {
+		// CRLF line endings (a checkout with line-ending conversion): valid Go, every offset shifts by the line number
+		c.Src = strings.ReplaceAll(c.Src, "\n", "\r\n")
+	}
 	if r.Intn(6) == 0 {
 		// a UTF-8 byte order mark in front of the package clause: valid Go (the scanner skips it, offsets count it)
 		c.Src = "\uFEFF" + c.Src
@@ -727,6 +734,25 @@ func injectLib(path string) (r injectRun) {
 	return injectRun{}
 }
 
+// injectOddDir gives every second scratch directory a name that is awkward for tools which treat paths as patterns or
+// split them at blanks: glob metacharacters, blanks, non-ASCII.  The name is an ordinary directory name for -d and -f;
+// for -p the directory part of the pattern is escaped (injectGlobEscape), so the pattern still means "the files in there".
+func injectOddDir(name string, n int) string {
+	switch n % 6 {
+	case 1:
+		return name + "[v1]"
+	case 3:
+		return name + " gen *x?"
+	case 5:
+		return name + "_协议 [a-c]"
+	}
+	return name
+}
+
+func injectGlobEscape(dir string) string {
+	return strings.NewReplacer(`\`, `\\`, `[`, `\[`, `*`, `\*`, `?`, `\?`).Replace(dir)
+}
+
 var injectLibMu sync.Mutex // the library logs through one global logger; keep in-process runs sequential
 
 // injectBatch runs one mode over a set of files that live in dir (names sorted = processing order).  A crash of a
@@ -754,7 +780,7 @@ func injectBatch(cli, mode, dir string, names []string) map[string]injectRun {
 			if mode == "d" {
 				r = injectCLI(cli, "-d", cur)
 			} else {
-				r = injectCLI(cli, "-p", filepath.Join(cur, "*.go"))
+				r = injectCLI(cli, "-p", filepath.Join(injectGlobEscape(cur), "*.go"))
 			}
 			if r.panic == "" {
 				for _, n := range rest {
@@ -903,7 +929,7 @@ func injectFilesCmd(args []string) error {
 	}
 	sampleLeft := *samples
 	runJob := func(j job) {
-		base := filepath.Join(*work, fmt.Sprintf("b%05d", j.n))
+		base := filepath.Join(*work, injectOddDir(fmt.Sprintf("b%05d", j.n), j.n))
 		names := make([]string, len(j.idxs))
 		byName := map[string]int{}
 		for x, i := range j.idxs {
@@ -1175,7 +1201,7 @@ func injectDirsCmd(args []string) error {
 			v.Pattern = []string{"*.go", "*", "e*", "*.go", "e?_*.go"}[r.Intn(5)]
 		}
 		for _, mode := range []string{"d", "p", "f"} {
-			dir := filepath.Join(*work, fmt.Sprintf("d%06d_%s", v.ID, mode))
+			dir := filepath.Join(*work, injectOddDir(fmt.Sprintf("d%06d_%s", v.ID, mode), v.ID/2))
 			os.MkdirAll(dir, 0o755)
 			for i := range v.Ents {
 				p := injectEntPath(dir, &v.Ents[i])
@@ -1227,7 +1253,7 @@ func injectDirsCmd(args []string) error {
 			case "d":
 				runs = append(runs, injectCLI(*cli, "-d", dir))
 			case "p":
-				runs = append(runs, injectCLI(*cli, "-p", filepath.Join(dir, v.Pattern)))
+				runs = append(runs, injectCLI(*cli, "-p", filepath.Join(injectGlobEscape(dir), v.Pattern)))
 			case "f":
 				for i := range v.Ents {
 					runs = append(runs, injectCLI(*cli, "-f", filepath.Join(dir, v.Ents[i].Conc.Name)))
